@@ -87,7 +87,8 @@ class FileProc:
     def __init__(self, args, env, cwd):
         tag = "%d_%d" % (os.getpid(), random.randrange(1 << 30))
         self._so, self._se = os.path.join(cwd, "stdout_%s.txt" % tag), os.path.join(cwd, "stderr_%s.txt" % tag)
-        self._fo, self._fe = open(self._so, "w"), open(self._se, "w")
+        # stdout is not kept at all: a frame announcing 4 GB makes wire.discardInput print 400 000 lines
+        self._fo, self._fe = open(os.devnull, "w"), open(self._se, "w")
         self.p = subprocess.Popen(args, env=env, cwd=cwd, stdout=self._fo, stderr=self._fe, text=True)
 
     def _tail(self, path, n=200000):
@@ -126,7 +127,8 @@ def run_harness(binary, env_extra, timeout=3600, cwd=None):
     env = go_env()
     env.update({k: str(v) for k, v in env_extra.items()})
     p = subprocess.run([binary, "-test.run", "^TestHarness$", "-test.timeout", "0"], env=env, cwd=cwd or sub("run"),
-                       capture_output=True, text=True, timeout=timeout)
+                       stdout=subprocess.DEVNULL, stderr=subprocess.PIPE, text=True, timeout=timeout)
+    p.stdout = ""   # not kept (the code under test prints freely); diagnostics come on stderr
     return p
 
 
